@@ -30,7 +30,7 @@ pub open spec fn fs_wf() -> bool {
 pub enum KRes { Done(int), Fail(int) }
 
 pub open spec fn kres(cur: int, comps: Seq<Comp>, n: nat, nf: bool, nosym: bool) -> KRes
-    decreases 128 - n, comps.len()
+    decreases 40 - n, comps.len()
 {
     if comps.len() == 0 {
         KRes::Done(cur)
@@ -52,7 +52,7 @@ pub open spec fn kres(cur: int, comps: Seq<Comp>, n: nat, nf: bool, nosym: bool)
                         KRes::Done(nx)
                     } else if nosym {
                         KRes::Fail(libc::ELOOP as int)
-                    } else if n + 1 >= 128 {
+                    } else if n >= 40 {       // fs/namei.c: total_link_count++ >= MAXSYMLINKS (40)
                         KRes::Fail(libc::ELOOP as int)
                     } else {
                         let t = fs_target(nx);
